@@ -81,7 +81,7 @@ func c08Templates(batch, nbatch int) []*gram.Grammar {
 	}
 	prefixes := []string{"none", "opt", "star", "poslook", "neglook", "consume", "bracketopt", "optgroup2", "nullable-production", "nullable-chain", "nullable-then-dependent", "nonempty-group-of-nullable-production"}
 	wrappers := []string{"bare", "paren", "optgroup", "stargroup", "look", "neg", "plusgroup", "captured-group-before"}
-	routes := []string{"direct", "viaB", "viaUnion", "viaBnullableprefix", "viaUnionOnly", "unionCycleBelowRoot"}
+	routes := []string{"direct", "viaB", "viaUnion", "viaBnullableprefix", "viaUnionOnly", "unionCycleBelowRoot", "unionRootDirect", "unionRootViaRoot"}
 	altpos := []string{"first", "second-after-single", "second-after-multi", "third"}
 	n := 0
 	for pi, pf := range prefixes {
@@ -204,6 +204,32 @@ func c08Templates(batch, nbatch int) []*gram.Grammar {
 							&gram.Prod{Name: C, Fields: []gram.Field{{Name: "F0", Kind: "string"}}, Expr: seq(lit("c"), &gram.Expr{Op: "cap", Field: 0, Kids: []*gram.Expr{{Op: "ref", Typ: "Ident"}}})},
 							&gram.Prod{Name: B, Fields: bFields, Expr: bexpr})
 						g.Unions = append(g.Unions, &gram.Union{Name: U, Members: []gram.Member{{Prod: C}, {Prod: B, Ptr: true}}})
+					case "unionRootDirect", "unionRootViaRoot":
+						// the grammar root is the union U = union(C, &B) itself; its first member C reaches nothing else,
+						// the later member B re-enters itself (or the root union) behind <prefix>
+						g.Root = U
+						recAlt = nil
+						var bFields []gram.Field
+						tgt := B
+						if rt == "unionRootViaRoot" {
+							tgt = U
+						}
+						brec := seq(mkRefT(&bFields, tgt)...)
+						var bexpr *gram.Expr
+						switch ap {
+						case "first":
+							bexpr = &gram.Expr{Op: "alt", Kids: []*gram.Expr{brec, seq(lit("t"), lit("u"), lit("v"))}}
+						case "second-after-single":
+							bexpr = &gram.Expr{Op: "alt", Kids: []*gram.Expr{lit("t"), brec}}
+						case "second-after-multi":
+							bexpr = &gram.Expr{Op: "alt", Kids: []*gram.Expr{seq(lit("t"), lit("u"), lit("v")), brec}}
+						default:
+							bexpr = &gram.Expr{Op: "alt", Kids: []*gram.Expr{seq(lit("t"), lit("u")), seq(lit("m"), lit("n"), lit("o")), brec}}
+						}
+						g.Prods = append(g.Prods,
+							&gram.Prod{Name: C, Fields: []gram.Field{{Name: "F0", Kind: "string"}}, Expr: seq(lit("c"), &gram.Expr{Op: "cap", Field: 0, Kids: []*gram.Expr{{Op: "ref", Typ: "Ident"}}})},
+							&gram.Prod{Name: B, Fields: bFields, Expr: bexpr})
+						g.Unions = append(g.Unions, &gram.Union{Name: U, Members: []gram.Member{{Prod: C}, {Prod: B, Ptr: true}}})
 					case "viaUnionOnly":
 						// the cycle closes through a union whose member is the production itself:
 						// no struct of the cycle is referenced by a plain @@ field
@@ -240,8 +266,10 @@ func c08Templates(batch, nbatch int) []*gram.Grammar {
 							aexpr = &gram.Expr{Op: "alt", Kids: []*gram.Expr{seq(lit("t"), lit("u")), seq(lit("m"), lit("n"), lit("o")), recAlt}}
 						}
 					}
-					aprod := &gram.Prod{Name: A, Fields: aFields, Expr: aexpr}
-					g.Prods = append([]*gram.Prod{aprod}, g.Prods...)
+					if g.Root == A {
+						aprod := &gram.Prod{Name: A, Fields: aFields, Expr: aexpr}
+						g.Prods = append([]*gram.Prod{aprod}, g.Prods...)
+					}
 					if needN >= 1 {
 						n1 := &gram.Prod{Name: N1, Fields: []gram.Field{{Name: "F0", Kind: "string"}}, Expr: grp("?", &gram.Expr{Op: "cap", Field: 0, Kids: []*gram.Expr{lit("x")}})}
 						if needN == 2 {
